@@ -5,6 +5,7 @@ object from the catalogue factory; states are de-duplicated by the canonical for
 Reference model: a dict (flattened parameter map).
 """
 PROPERTY = "C01"
+CASE_TIMEOUT = 2400
 RULE = ("BFS from every (exported class, configuration) over {clone, set_params(k, fresh value) for <= 8 curated keys "
         "(plain, nested, prefixed, indexed >= 10, estimator-valued), transfer from every other configuration}, with "
         "get_params(deep in {T,F}) and set_params(k, same value) for EVERY advertised key evaluated in every state; "
@@ -15,7 +16,7 @@ ASSUMPTIONS = ["the reference model is a flat dict: set_params(k=v) changes k (a
 
 
 def bounds(tier):
-    return {"depth": 2 if tier == "quick" else 4, "behaviour_depth": 1 if tier == "quick" else 2, "curated_keys": 8}
+    return {"depth": 2 if tier == "quick" else 3, "behaviour_depth": 1 if tier == "quick" else 2, "curated_keys": 8}
 
 
 def cases(tier, seed):
